@@ -682,10 +682,58 @@ func init() {
 					cands = append(cands, p)
 				}
 			}
+			if r.Chance(30) {
+				return genFuzz(r, tier)
+			}
 			p := cands[r.Intn(len(cands))]
 			return p.Gen(r, tier)
 		},
 	})
+}
+
+// genFuzz: every public method from several tasks at once, including two
+// concurrent controllers and introspection readers.
+func genFuzz(r *simrt.Rand, tier string) (Cfg, *Program) {
+	pf := baseProfile()
+	pf.QKinds = allKinds
+	pf.NQ = [2]int{1, 2}
+	pf.Expiry = []int{0, 1, 50}
+	pf.TickW = []int{0, 5}
+	pf.UseCtxPct = 50
+	pf.BatchPct, pf.BatchMax = 25, 5
+	pf.GatedPct, pf.DelayPct = 10, 30
+	pf.ErrPct, pf.PanicPct = 20, 10
+	pf.IDGenPct = 30
+	pf.Ctrl = []wop{{opPause, 2}, {opResume, 3}, {opPauseAndWait, 1}, {opStop, 2}, {opRestart, 3}, {opTune, 3}, {opWUF, 1}, {opBind, 1}, {opCancelCtx, 1}, {opIntro, 3}}
+	pf.CtrlOps = [2]int{2, 7}
+	pf.CtrlGapPct = 30
+	pf.Cancellers, pf.CancelOps = [2]int{0, 2}, [2]int{1, 4}
+	pf.Cancel = []wop{{opCloseJob, 6}, {opPurge, 2}, {opCloseQueue, 1}}
+	pf.Waiters, pf.WaitOps = [2]int{0, 2}, [2]int{1, 4}
+	pf.Wait = []wop{{opWait, 3}, {opResult, 4}, {opDrain, 2}, {opStatus, 2}}
+	pf.Samplers, pf.SampleOps = [2]int{1, 3}, [2]int{2, 6}
+	pf.Sample = []wop{{opIntro, 6}, {opSample, 2}, {opQueuePending, 2}, {opStatus, 2}}
+	pf.ReaderPct, pf.BatchWaitPct = 50, 50
+	pf.ErrReaderPct = 50
+	pf.Releaser = 50
+	c, p := generate(r, pf)
+	// a second controller running concurrently with the first
+	if r.Chance(60) {
+		var ops []Op
+		for i, n := 0, 1+r.Intn(5); i < n; i++ {
+			k := pickW(r, pf.Ctrl)
+			op := Op{K: k}
+			if k == opTune {
+				op.A = pick(r, pf.Tunes)
+			}
+			if k == opBind {
+				op.A = pick(r, memKinds)
+			}
+			ops = append(ops, op)
+		}
+		p.Tasks = append(p.Tasks, ops)
+	}
+	return c, p
 }
 
 // pseudo op kinds resolved by the generator
